@@ -223,4 +223,14 @@ def c18_f(ctx: Ctx):
     return per_item_loops(ctx, "C18-f", [('signac.schema:_build_job_statepoint_index', 'a key is reported with the values collected for the previous key'), ('signac.project:Project.detect_schema', 'a key is reported with the types collected for the previous key'), ('signac.diff:diff_jobs', "a job's diff is computed from another job's state point")])
 
 
-RULES = [c18_a, c18_b, c18_c, c18_d, c18_e, c18_f]
+@rule("C18-g")
+def c18_g(ctx: Ctx):
+    """Values keep their kind on the way into schema and diff: a mapping inside a list stays a mapping, and equal mappings hash equally (from C06-g)."""
+    from .c06 import c06_g
+    res = [r for r in c06_g(ctx) if "mapping-stays-mapping" in r.construct or "hash-eq" in r.construct]
+    for r in res:
+        r.rule = "C18-g"
+    return res
+
+
+RULES = [c18_a, c18_b, c18_c, c18_d, c18_e, c18_f, c18_g]
